@@ -135,6 +135,7 @@ class Derivation:
         self.force = {}           # shape of a condition -> truth value
         self.force_variant = {}   # shape of a matched value -> variant name
         self.force_star = set()   # shapes of iterated collections that must not be empty
+        self.force_empty = set()  # .. and of those that have to be
         self.forced_keys = set()
         self.variants = {}
         for c in (target_ctx or ()):
@@ -147,10 +148,16 @@ class Derivation:
                 if cond[0] == "islet" and not cond[1].startswith(("Some(", "Ok(", "Err(")) and cond[1].rsplit("::", 1)[-1] not in ("None", "_"):
                     if branch:
                         self.force_variant[shape_str(cond[2])] = cond[1].split("(")[0].split("{")[0].rsplit("::", 1)[-1].strip()
+                elif cond[0] == "call" and str(cond[1]).rsplit("::", 1)[-1] == "is_empty" and cond[2]:
+                    # the way to the site asks for this collection to be empty / not empty: that is a matter of how many elements it gets
+                    (self.force_empty if branch else self.force_star).add(shape_str(cond[2][0]))
                 else:
                     self.force.setdefault(shape_str(cond), branch)
 
     def count(self, key, shape_key=None):
+        if shape_key is not None and shape_key in self.force_empty and shape_key not in self.force_star:
+            self.star_counts[key] = 0
+            return 0
         if shape_key is not None and shape_key in self.force_star:
             if key not in self.star_counts:
                 self.star_counts[key] = 1
